@@ -5,6 +5,9 @@ Items are (kind, dialect, ident, ruleset):
   mutant   — one seeded mutation of that fixture file   ident = path relative to the repo
   gen      — generated ansi SQL                          ident = generator seed
   jinja    — generated jinja template + context         ident = generator seed (even: inline, odd: block style)
+  cmt      — the fixture with 1-3 inline comments (`-- c<k>` + newline) put in place of whitespace tokens (every 2nd fixture)
+  quo      — the fixture with 1-3 unquoted identifiers replaced by a mixed-case quoted identifier (every 2nd fixture)
+  edge     — generated statements whose lines are padded to within 3 characters of max_line_length (near-limit lines)
 The universe is a pure function of the repo's fixture directory and of `corpus_gen.py` (frozen), so a known finding can
 be keyed by the item's name; VERIF_SEED only chooses which slice a quick run visits.
 """
@@ -20,12 +23,89 @@ MAIN = ("all", "layout", "capitalisation")
 VARIANTS = ("cap_upper", "cap_lower", "cap_pascal", "cap_snake", "cap_camel", "layout_alt")
 N_GEN = 400
 N_JINJA = 300
+N_EDGE = 300
+QUOTE = {"mysql": "`%s`", "bigquery": "`%s`", "hive": "`%s`", "sparksql": "`%s`", "databricks": "`%s`", "mariadb": "`%s`", "starrocks": "`%s`", "doris": "`%s`",
+         "clickhouse": "`%s`", "tsql": "[%s]", "impala": "`%s`", "soql": None}
 REPO = str(G.REPO)
 
 
 def name_of(item):
     kind, d, ident, rs = item
-    return {"fixture": "%s", "mutant": "%s#mut", "gen": "gen#%s", "jinja": "jinja#%s"}[kind] % (ident,)
+    return {"fixture": "%s", "mutant": "%s#mut", "gen": "gen#%s", "jinja": "jinja#%s", "cmt": "%s#cmt", "quo": "%s#quo", "edge": "edge#%s"}[kind] % (ident,)
+
+
+def _tokens(d, sql):
+    from sqlfluff.core import FluffConfig, Lexer
+    toks, _ = Lexer(config=FluffConfig(overrides={"dialect": d})).lex(sql)
+    return [t for t in toks if not t.is_meta]
+
+
+def inject_comments(rng, d, sql):
+    """Inline comments are legal between any two tokens: put 1-3 of them either in place of a whitespace token or directly
+    at a token boundary (e.g. between a function name and its bracket)."""
+    toks = _tokens(d, sql)
+    ws = [i for i, t in enumerate(toks) if t.is_type("whitespace") and i + 1 < len(toks) and not toks[i + 1].is_type("newline", "comment")
+          and (i == 0 or not toks[i - 1].is_type("comment"))]
+    bd = [i for i, t in enumerate(toks) if i > 0 and not t.is_type("whitespace", "newline", "comment", "end_of_file")
+          and not toks[i - 1].is_type("whitespace", "newline", "comment") and toks[i - 1].raw.strip()]
+    rng.shuffle(ws); rng.shuffle(bd)
+    k = rng.randint(1, 3)
+    pick_ws = set(ws[: max(0, k - 1)])
+    pick_bd = set(bd[:1]) if bd else set()
+    if not pick_bd:
+        pick_ws = set(ws[:k])
+    out = []
+    for i, t in enumerate(toks):
+        if i in pick_bd:
+            out.append(" -- b%d\n" % (i % 7))
+        out.append((" -- c%d\n" % (i % 7)) if i in pick_ws else t.raw)
+    return "".join(out)
+
+
+def inject_quotes(rng, d, sql):
+    q = QUOTE.get(d, '"%s"')
+    if q is None:
+        return sql
+    toks = _tokens(d, sql)
+    ids = [i for i, t in enumerate(toks) if t.is_type("word") and t.raw.isidentifier() and t.raw.lower() not in KEYWORDISH and len(t.raw) > 1]
+    rng.shuffle(ids)
+    pick = set(ids[: rng.randint(1, 3)])
+    out = []
+    for i, t in enumerate(toks):
+        if i in pick:
+            r = t.raw
+            out.append(q % (r[0].upper() + r[1:].lower() + rng.choice(["", " x", "Y"])))
+        else:
+            out.append(t.raw)
+    return "".join(out)
+
+
+KEYWORDISH = set("""select from where and or not null as on join left right inner outer full cross group by order having limit union all distinct case when then
+else end insert into values update set delete create table view index drop alter add column primary key foreign references default with recursive is in between like exists
+true false asc desc using over partition rows range unbounded preceding following current row interval cast if begin declare return returns function procedure""".split())
+
+
+def edge_sql(rng, limit=80):
+    """Statements whose select targets / conditions sit on lines of length limit-3 .. limit+2."""
+    lines = [rng.choice(["SELECT", "select"])]
+    n = rng.randint(2, 4)
+    for i in range(n):
+        body = rng.choice(["col_%d %s", "tbl.col_%d %s", "coalesce(col_%d, 0) %s", "col_%d + 1 %s", "sum(col_%d) %s", "col_%d*2 %s", "a.col_%d  %s"])
+        alias = rng.choice(["total_%d" % i, "AS total_%d" % i, "as Total_%d" % i])
+        text = "    " + body % (i, alias) + ("," if i < n - 1 else "")
+        target = limit + rng.choice([-3, -2, -1, 0, 1, 2])
+        pad = target - len(text)
+        if pad > 0:
+            # lengthen the identifier, keeping it one token
+            text = text.replace("col_%d" % i, "col_%d%s" % (i, "x" * pad), 1)
+        lines.append(text)
+    lines.append(rng.choice(["FROM tbl", "from tbl a", "FROM tbl AS a"]))
+    if rng.random() < 0.5:
+        cond = "WHERE col_0 = 1 AND col_1 IN (1, 2, 3)"
+        target = limit + rng.choice([-2, -1, 0, 1])
+        cond = cond + " AND " + "y" * max(1, target - len(cond) - 9) + " = 2"
+        lines.append(cond)
+    return "\n".join(lines) + "\n"
 
 
 def load(item):
@@ -36,6 +116,12 @@ def load(item):
         if kind == "mutant":
             sql = G.mutate_sql(random.Random(zlib.crc32(ident.encode())), sql)
         return name_of(item), sql, None
+    if kind in ("cmt", "quo"):
+        sql = open(os.path.join(REPO, ident), encoding="utf-8").read()
+        rng = random.Random(zlib.crc32((kind + ident).encode()))
+        return name_of(item), (inject_comments if kind == "cmt" else inject_quotes)(rng, d, sql), None
+    if kind == "edge":
+        return name_of(item), edge_sql(random.Random(int(ident))), None
     if kind == "gen":
         return name_of(item), G.sql_file(random.Random(int(ident))), None
     tpl, ctx = (G.jinja_block_template if int(ident) % 2 else G.jinja_template)(random.Random(int(ident)))
@@ -63,6 +149,17 @@ def full_universe(rulesets=None):
     for i in range(N_JINJA):
         for rs in ("all", "layout"):
             items.append(("jinja", "ansi", i, rs))
+    for k, (d, f) in enumerate(G.fixture_files()):
+        if k % 2:
+            continue
+        rel = os.path.relpath(str(f), REPO)
+        for rs in ("all", "layout"):
+            items.append(("cmt", d, rel, rs))
+        for rs in ("capitalisation", "cap_upper", "cap_lower"):
+            items.append(("quo", d, rel, rs))
+    for i in range(N_EDGE):
+        for rs in ("all", "layout"):
+            items.append(("edge", "ansi", i, rs))
     if rulesets is not None:
         items = [x for x in items if x[3] in rulesets]
     return items
